@@ -105,10 +105,10 @@ Opened(o) ==
             /\ hs' = [hs EXCEPT ![o.q] = "active"]
             \* the lifetime permit is stored according to the keep-alive map of the connection's ProtocolSet
             \* (main and fallback names); mutant: fallback names are looked up wrongly and get none
-            /\ subs' = IF Mutant = "fallback-no-permit" /\ o.rem /\ o.fb THEN subs ELSE subs \cup {[q |-> o.q, id |-> o.id]}
+            /\ subs' = IF Mutant = "fallback-no-permit" /\ o.rem /\ o.fb THEN subs ELSE subs \cup {[q |-> o.q, id |-> o.id, sh |-> "full"]}
             /\ Obs([e |-> "open_ok", s |-> S, t |-> Ms(now), tb |-> Ms(o.at), rem |-> o.rem])
        ELSE /\ UNCHANGED <<last, tmr, hs, mon>>
-            /\ subs' = IF Mutant = "ping-holds-permit" THEN subs \cup {[q |-> o.q, id |-> o.id]} ELSE subs
+            /\ subs' = IF Mutant = "ping-holds-permit" THEN subs \cup {[q |-> o.q, id |-> o.id, sh |-> "full"]} ELSE subs
   /\ UNCHANGED <<now, closed, nid>>
   /\ Stim([a |-> "opened", q |-> o.q, id |-> o.id, rem |-> o.rem, at |-> now])
 
@@ -126,6 +126,17 @@ Drop(x) ==
   /\ mon' = MonEv(MonEv(mon, [e |-> "drop_begin", s |-> S, t |-> Ms(now)]), [e |-> "drop_done", s |-> S, t |-> Ms(now)])
   /\ UNCHANGED <<now, hs, last, tmr, opening, closed, nid>>
   /\ Stim([a |-> "drop", id |-> x.id, at |-> now])
+
+\* The holder half-closes the substream by reference (write side shut down: `Sink::close(&mut s)` /
+\* `AsyncWrite::shutdown`), or the remote closed its write side and the object is only read from.  The
+\* substream OBJECT still exists, and with it the lifetime permit.  Mutant "permit-released-at-shutdown":
+\* shutting the write half down releases the permit.
+HalfClose(x, shape) ==
+  /\ ~closed /\ x \in subs /\ x.q \in K /\ x.sh = "full"
+  /\ subs' = IF Mutant = "permit-released-at-shutdown" /\ shape = "write"
+               THEN subs \ {x} ELSE (subs \ {x}) \cup {[x EXCEPT !.sh = shape]}
+  /\ UNCHANGED <<now, hs, last, tmr, opening, closed, nid, mon>>
+  /\ Stim([a |-> "half", id |-> x.id, shape |-> shape, at |-> now])
 
 \* KeepAliveTracker::poll_next for a due timer, then TransportService::poll_next downgrades
 TimerFires(q) ==
@@ -152,7 +163,7 @@ Next ==
   \/ Tick \/ LoopExit
   \/ \E q \in PP : TimerFires(q) \/ Open(q, FALSE, FALSE) \/ (q \in K /\ \E fb \in BOOLEAN : Open(q, TRUE, fb)) \/ OpenClogged(q)
   \/ \E o \in opening : Opened(o) \/ OpenFails(o)
-  \/ \E x \in subs : Drop(x)
+  \/ \E x \in subs : Drop(x) \/ (\E shape \in {"write", "read"} : HalfClose(x, shape))
 
 Spec == Init /\ [][Next]_vars
 
